@@ -396,7 +396,7 @@ macro_rules! conv {
     };
 }
 
-// @verif prop=C16 tier=quick fl=f1 role=convert/list-to-map t=1200 mem=12
+// @verif prop=C16 tier=quick fl=f1 feat=map4 role=convert/list-to-map t=1200 mem=12
 #[cfg_attr(kani, kani::proof)]
 #[cfg_attr(kani, kani::unwind(10))]
 pub fn c16_list_to_map_n3() {
@@ -417,21 +417,21 @@ pub fn c16_list_to_edge_list_n3() {
     convert::<AdjacencyList, EdgeList, 3>();
 }
 
-// @verif prop=C16 tier=quick fl=f1 role=convert/map-to-list t=1200 mem=12
+// @verif prop=C16 tier=quick fl=f1 feat=map4 role=convert/map-to-list t=1200 mem=12
 #[cfg_attr(kani, kani::proof)]
 #[cfg_attr(kani, kani::unwind(10))]
 pub fn c16_map_to_list_n3() {
     convert::<AdjacencyMap, AdjacencyList, 3>();
 }
 
-// @verif prop=C16 tier=quick fl=f1 role=convert/map-to-matrix t=1200 mem=12
+// @verif prop=C16 tier=quick fl=f1 feat=map4 role=convert/map-to-matrix t=1200 mem=12
 #[cfg_attr(kani, kani::proof)]
 #[cfg_attr(kani, kani::unwind(10))]
 pub fn c16_map_to_matrix_n3() {
     convert::<AdjacencyMap, AdjacencyMatrix, 3>();
 }
 
-// @verif prop=C16 tier=quick fl=f1 role=convert/map-to-edge-list t=1200 mem=12
+// @verif prop=C16 tier=quick fl=f1 feat=map4 role=convert/map-to-edge-list t=1200 mem=12
 #[cfg_attr(kani, kani::proof)]
 #[cfg_attr(kani, kani::unwind(10))]
 pub fn c16_map_to_edge_list_n3() {
@@ -445,7 +445,7 @@ pub fn c16_matrix_to_list_n3() {
     convert::<AdjacencyMatrix, AdjacencyList, 3>();
 }
 
-// @verif prop=C16 tier=quick fl=f1 role=convert/matrix-to-map t=1200 mem=12
+// @verif prop=C16 tier=quick fl=f1 feat=map4 role=convert/matrix-to-map t=1200 mem=12
 #[cfg_attr(kani, kani::proof)]
 #[cfg_attr(kani, kani::unwind(10))]
 pub fn c16_matrix_to_map_n3() {
@@ -466,7 +466,7 @@ pub fn c16_edge_list_to_list_n3() {
     convert::<EdgeList, AdjacencyList, 3>();
 }
 
-// @verif prop=C16 tier=quick fl=f1 role=convert/edge-list-to-map t=1200 mem=12
+// @verif prop=C16 tier=quick fl=f1 feat=map4 role=convert/edge-list-to-map t=1200 mem=12
 #[cfg_attr(kani, kani::proof)]
 #[cfg_attr(kani, kani::unwind(10))]
 pub fn c16_edge_list_to_map_n3() {
@@ -480,28 +480,28 @@ pub fn c16_edge_list_to_matrix_n3() {
     convert::<EdgeList, AdjacencyMatrix, 3>();
 }
 
-// @verif prop=C16 tier=quick fl=f1 role=to-weighted/list-usize t=1200 mem=12
+// @verif prop=C16 tier=quick fl=f1 feat=map4 role=to-weighted/list-usize t=1200 mem=12
 #[cfg_attr(kani, kani::proof)]
 #[cfg_attr(kani, kani::unwind(10))]
 pub fn c16_list_to_weighted_usize_n3() {
     to_weighted::<AdjacencyList, usize, 3>(1);
 }
 
-// @verif prop=C16 tier=quick fl=f1 role=to-weighted/matrix-isize t=1200 mem=12
+// @verif prop=C16 tier=quick fl=f1 feat=map4 role=to-weighted/matrix-isize t=1200 mem=12
 #[cfg_attr(kani, kani::proof)]
 #[cfg_attr(kani, kani::unwind(10))]
 pub fn c16_matrix_to_weighted_isize_n3() {
     to_weighted::<AdjacencyMatrix, isize, 3>(1);
 }
 
-// @verif prop=C16 tier=thorough fl=f1 role=to-weighted/map-isize t=1800 mem=16
+// @verif prop=C16 tier=thorough fl=f1 feat=map4 role=to-weighted/map-isize t=1800 mem=16
 #[cfg_attr(kani, kani::proof)]
 #[cfg_attr(kani, kani::unwind(10))]
 pub fn c16_map_to_weighted_isize_n3() {
     to_weighted::<AdjacencyMap, isize, 3>(1);
 }
 
-// @verif prop=C16 tier=thorough fl=f1 role=to-weighted/edge-list-usize t=1800 mem=16
+// @verif prop=C16 tier=thorough fl=f1 feat=map4 role=to-weighted/edge-list-usize t=1800 mem=16
 #[cfg_attr(kani, kani::proof)]
 #[cfg_attr(kani, kani::unwind(10))]
 pub fn c16_edge_list_to_weighted_usize_n3() {
@@ -531,14 +531,14 @@ pub fn c16_from_rows_list_rejects_n3() {
     from_rows::<3, 4>(0, false);
 }
 
-// @verif prop=C16 tier=quick fl=f1 role=from-rows/adjacency-map t=1200 mem=12
+// @verif prop=C16 tier=quick fl=f1 feat=map4 role=from-rows/adjacency-map t=1200 mem=12
 #[cfg_attr(kani, kani::proof)]
 #[cfg_attr(kani, kani::unwind(10))]
 pub fn c16_from_rows_map_n3() {
     from_rows::<3, 4>(1, true);
 }
 
-// @verif prop=C16 tier=quick fl=f1 role=from-rows-rejects/adjacency-map t=1200 mem=12 expect=panic
+// @verif prop=C16 tier=quick fl=f1 feat=map4 role=from-rows-rejects/adjacency-map t=1200 mem=12 expect=panic
 #[cfg_attr(kani, kani::proof)]
 #[cfg_attr(kani, kani::unwind(10))]
 pub fn c16_from_rows_map_rejects_n3() {
